@@ -117,7 +117,7 @@ func c05Atom(r *rand.Rand, idx int) string {
 		return fmt.Sprintf("h := %s(%s)", b, strings.Join(args, ", "))
 	case 16:
 		return pick(r, []string{"h := bytes(-1)", "h := bytes(-9223372036854775808)", "h := range(0, 100000)", "h := range(9223372036854775807, 9223372036854775800)", "h := range(-9223372036854775808, -9223372036854775800, 3)",
-			"h := range(0, 10, 9223372036854775807)", "h := range(9223372036854775800, 9223372036854775807)", "h := splice([1, 2, 3], 9223372036854775807)", "h := splice([1, 2, 3], 1, 9223372036854775807)",
+			"h := range(0, 10, 9223372036854775807)", "h := range(0, 9223372036854775807, 9223372036854775806)", "h := range(1, 9223372036854775807, 9223372036854775807)", "h := range(0, -9223372036854775808, 9223372036854775807)", "h := range(9223372036854775806, 9223372036854775807, 5)", "h := range(-9223372036854775807, -9223372036854775808, 2)", "h := range(9223372036854775800, 9223372036854775807)", "h := splice([1, 2, 3], 9223372036854775807)", "h := splice([1, 2, 3], 1, 9223372036854775807)",
 			"h := splice([1, 2, 3], 3, 1, 1)", "h := splice([1, 2, 3], -1)", "h := char(9223372036854775807)", "h := char(-1) + 1", "h := time(9223372036854775807)", "h := string(time(-9223372036854775808))", "h := int(1e300)", "h := int(\"9223372036854775808\", 1)",
 			"h := 1 << 9223372036854775807", "h := -9223372036854775808 / -1", "h := -9223372036854775808 % -1", "h := 1 / 0", "h := 1 % 0", "h := 1.0 / 0", "h := 'a' - 9223372036854775807"})
 	case 17:
